@@ -299,6 +299,15 @@ def cmdBscalars (m : List (String × String)) : Option String := do
   let dyn := (members.map (·.dyn)).flatten ++ (accumulate t (members.map (·.gb)) ++ [(members.map (·.hb)).foldl (· + ·) 0])
   pure s!"static={strOfScalars (staticScalars gi hi pad)} dynamic={strOfScalars dyn}"
 
+/-- scalar-field operations of the driver's carrier, for direct comparison with curve25519-dalek's `Scalar` -/
+def cmdFieldops (m : List (String × String)) : Option String := do
+  let a ← scalarOfHex (← get m "a")
+  let b ← scalarOfHex (← get m "b")
+  let wb ← hexToBytes (← get m "wide")
+  let w : Fl := ⟨leNat wb % ell⟩
+  let n ← (← get m "n").toNat?
+  pure s!"add={hexOfScalar (a + b)} sub={hexOfScalar (a - b)} mul={hexOfScalar (a * b)} neg={hexOfScalar (-a)} inv={hexOfScalar a⁻¹} wide={hexOfScalar w} pow={hexOfScalar (powF a n)} nat={hexOfScalar ((n : Nat) : Fl)}"
+
 def cmdAscalars (m : List (String × String)) : Option String := do
   let nat (k : String) : Option Nat := do (← get m k).toNat?
   let n ← nat "n"
@@ -356,6 +365,7 @@ def step (line : String) : String :=
       | "fields" => cmdFields m
       | "vscalars" => cmdVscalars m
       | "ascalars" => cmdAscalars m
+      | "fieldops" => cmdFieldops m
       | "bscalars" => cmdBscalars m
       | "encode" => cmdEncode m
       | _ => none
